@@ -13,10 +13,10 @@ open Extracted
 
 /-- the Go error value `convertBits` returns for each error class of the model -/
 def cbErr : Bech32.Err → Option Go.Err
-  | .badRange => some ⟨"bech32.convertBits", 0⟩
-  | .badPaddingIllegal => some ⟨"bech32.convertBits", 1⟩
-  | .badPaddingNonZero => some ⟨"bech32.convertBits", 2⟩
-  | _ => some ⟨"unreachable", 0⟩
+  | .badRange => some ⟨"bech32.convertBits", 0, []⟩
+  | .badPaddingIllegal => some ⟨"bech32.convertBits", 1, []⟩
+  | .badPaddingNonZero => some ⟨"bech32.convertBits", 2, []⟩
+  | _ => some ⟨"unreachable", 0, []⟩
 
 /-- what the translated `convertBits` returns, in terms of the model's result -/
 def cbRes : Except Bech32.Err Bytes → Go.M (List UInt8 × Option Go.Err)
@@ -231,7 +231,7 @@ theorem cb_loop1_eq (f t m : UInt8) (ht : 1 ≤ t.toNat) (hft : f.toNat + t.toNa
     ∀ (data : List UInt8) (k : Int) (ret : List UInt8) (acc : UInt32) (bits : UInt8), bits.toNat < t.toNat →
       (Bech32.cbLoop f.toNat t.toNat m.toNat data acc.toNat bits.toNat ret = .error .badRange ∧
         bech32_convertBits_loop1 f t m data k ret acc bits =
-          .ok (.ret ([], some ⟨"bech32.convertBits", 0⟩))) ∨
+          .ok (.ret ([], some ⟨"bech32.convertBits", 0, []⟩))) ∨
       ∃ (acc' : UInt32) (bits' : UInt8) (r : List UInt8),
         Bech32.cbLoop f.toNat t.toNat m.toNat data acc.toNat bits.toNat ret = .ok (acc'.toNat, bits'.toNat, r) ∧
         bits'.toNat < t.toNat ∧
